@@ -165,17 +165,6 @@ package util
 //@ extern func time.Sleep(d time.Duration)
 //@   effectfree
 //@   trusted "sleeping has no effect on program state"
-//@ ghost var held gset[int]
-//@ ghost var unlocks int
-//@ extern func (m *sync.Mutex).Lock()
-//@   ensures held == old(held)[m := true] && unlocks == old(unlocks)
-//@   modifies held
-//@   trusted "sync.Mutex: Lock returns with the mutex held by the caller (ghost set held); blocking and fairness are not modelled"
-//@ extern func (m *sync.Mutex).Unlock()
-//@   ensures held == old(held)[m := false] && unlocks == old(unlocks) + 1
-//@   modifies held, unlocks
-//@   trusted "sync.Mutex: Unlock releases the mutex (ghost set held, ghost counter unlocks)"
-
 //@ func Coerce
 //@   props C01 C04 C06
 //@   ensures[nan]   isnan(value) ==> isnan(result)
